@@ -14,7 +14,9 @@ BUILD = os.environ.get('VERIF_BUILD', os.path.join(HERE, '.build'))
 REPO = os.environ.get('VERIF_REPO', '/repo')
 
 QUICK = ['roundtrip_shape_%d_%s' % (m, l) for m in range(8) for l in ('fifo', 'lifo')] + \
-        ['omitted_all', 'omitted_timeouts', 'omitted_mode', 'timeouts_empty', 'timeouts_only_wait', 'timeouts_only_create', 'timeouts_only_recycle', 'timeouts_two']
+        ['omitted_all', 'omitted_timeouts', 'omitted_mode', 'timeouts_empty', 'timeouts_only_wait', 'timeouts_only_create', 'timeouts_only_recycle', 'timeouts_two'] + \
+        ['missing_max_size_only', 'missing_max_size_timeouts', 'missing_max_size_mode', 'missing_max_size_both']
+MISSING = {'missing_max_size_only': (0, 0), 'missing_max_size_timeouts': (1, 0), 'missing_max_size_mode': (0, 1), 'missing_max_size_both': (1, 1)}
 THOROUGH = QUICK + ['thorough_shape_1_fifo', 'thorough_shape_2_lifo', 'thorough_shape_3_fifo', 'thorough_shape_4_lifo', 'thorough_shape_5_fifo', 'thorough_shape_6_lifo',
                     'thorough_shape_7_fifo', 'thorough_shape_7_lifo']
 N1 = [999999999, 0, 1]; N2 = [1000000, 999999, 500000000]
@@ -43,6 +45,7 @@ def replay_args(h):
             d = ['-' if not mask & (1 << i) else f'{secs}:{nn[i]}' for i in range(3)]
             out.append(['roundtrip', str(ms)] + d + ['1' if m.group(3) == 'lifo' else '0'])
         return out
+    if h in MISSING: return [['missing', str(MISSING[h][0]), str(MISSING[h][1])]]
     wt, wm, inner = OMIT[h]
     return [['omitted', str(ms), str(wt), str(wm), str(inner)] for ms in (3, 0, 18446744073709551615)]
 
@@ -73,7 +76,7 @@ def run_serde(prog, job):
            'bounds': {'engine': 'Kani 0.68 / CBMC 6.11 on the monomorphised code, unwind 13 with unwinding assertions', 'harnesses': len(names),
                       'shape': 'every subset of the three timeouts x both queue modes; sub-second parts concrete (' + ', '.join(map(str, N1 + (N2 if job.get('tier') == 'thorough' else []))) + ' ns)',
                       'arbitrary': 'max_size (all of usize) and the seconds of every timeout (all of u64)', 'format': 'token stream of /verif/kani_serde (self-describing, structs as maps by field name; serde\'s own Duration is read positionally)',
-                      'omitted_sections': '8 documents that omit timeouts / queue_mode / entries of timeouts'},
+                      'omitted_sections': '8 documents that omit timeouts / queue_mode / entries of timeouts; 4 documents that omit max_size (rejected, or the documented default)'},
            'violations': [], 'complete': True}
     if not m or int(m.group(3)) != len(names):
         raise RuntimeError('cargo kani did not report on every harness: ' + out[-600:].replace('\n', ' | '))
